@@ -75,9 +75,12 @@ def analyse(ctx, repo, ci, fb, raw, fam, concrete=()):
         I.st = st
         o = I.call(fb, [raw], {})
         sy = Symboliser(I)
-        sy.keep = KEEP
+        # TMS derives the first header's has_more_headers flag while serialising (whatever the object held before must not
+        # matter): there the flag is an ordinary symbolic field; ARS serialises according to the flag, so it selects the shape
+        sy.keep = KEEP - {"has_more_headers"} if ci.name == "TextMessagingService" else KEEP
         sy.widths = WIDTHS
         sy.concrete = set(concrete)
+        sy.enums = True   # small enumerations that the owner class only serialises are varied over their defined members
         sy.sym("", o)
         wire = I.call(repo.find_method(ci, "as_bytes"), [o], {})
         if isinstance(wire, (bytes, bytearray)):
